@@ -44,6 +44,7 @@ def ark_ec_models():
     PP = r'ark_ec::twisted_edwards::Projective<ark_curve::edwards::Decaf377EdwardsConfig>'
     return [
         (rf'^<{PA} as core::convert::Into<{PP}>>::into$', m_te_affine_to_projective), (rf'^<{PP} as core::convert::From<{PA}>>::from$', m_te_affine_to_projective),
+        (rf'^<{PP} as ark_ec::CurveGroup>::into_affine$', m_te_projective_to_affine), (rf'^<{PA} as ark_ec::AffineRepr>::into_group$', m_te_affine_to_projective),
         (rf'^<{PP} as core::convert::Into<{PA}>>::into$', m_te_projective_to_affine), (rf'^<{PA} as core::convert::From<{PP}>>::from$', m_te_projective_to_affine),
         (r'^ark_ec::twisted_edwards::Projective::<.*>::new$', m_te_projective_new),
         (r'^ark_ec::twisted_edwards::Projective::<.*>::new_unchecked$', m_te_projective_new_unchecked),
@@ -388,3 +389,209 @@ def check_elligator(build):
         obs.append(compare_coords(f'{name} invariant under r0 -> -r0', cn, cx, samp, r))
     if len(recs) < 4: obs.append(Ob(f'{build}:elligator path count', 'inconclusive', f'only {len(recs)} paths', 0, 'mirsym'))
     return obs
+
+# ---------------------------------------------------------------------------------------------- C08 equality / hash / identity predicates
+class LB:
+    """byte i of the canonical little-endian form of a field value, possibly masked"""
+    def __init__(s, fe, i, mask=0xff): s.fe, s.i, s.mask = fe, i, mask
+    def __deepcopy__(s, memo): return s
+    def mir_binop(s, op, x, y):
+        o = y if x is s else x
+        if op == 'BitAnd' and isinstance(o, int): return LB(s.fe, s.i, s.mask & o)
+        raise Unsupported(f'byte op {op}')
+
+class HashRec:
+    """recording hasher"""
+    def __init__(s): s.data = []
+    def __deepcopy__(s, memo): return s
+
+def c08_models(build):
+    def m_proj_eq(I, fr, fn, a):
+        p, q = models.D(I, a[0]), models.D(I, a[1])
+        if not (isinstance(p, Agg) and p.name == 'Projective'): return NotImplemented
+        x1, y1, t1, z1 = p.fields; x2, y2, t2, z2 = q.fields
+        return models.fe_eq(I, x1.mul(z2), x2.mul(z1)) and models.fe_eq(I, y1.mul(z2), y2.mul(z1))
+    def m_aff_eq(I, fr, fn, a):
+        p, q = models.D(I, a[0]), models.D(I, a[1])
+        if not (isinstance(p, Agg) and p.name == 'Affine'): return NotImplemented
+        return models.fe_eq(I, p.fields[0], q.fields[0]) and models.fe_eq(I, p.fields[1], q.fields[1])
+    def m_proj_is_zero(I, fr, fn, a):
+        p = models.D(I, a[0])
+        if not (isinstance(p, Agg) and p.name == 'Projective'): return NotImplemented
+        x, y, t, z = p.fields
+        return models.fe_is_zero(I, x) and models.fe_eq(I, y, z) and not models.fe_is_zero(I, y) and models.fe_is_zero(I, t)
+    def m_aff_is_zero(I, fr, fn, a):
+        p = models.D(I, a[0])
+        if not (isinstance(p, Agg) and p.name == 'Affine'): return NotImplemented
+        return models.fe_is_zero(I, p.fields[0]) and models.fe_eq(I, p.fields[1], FE.const('Fq', 1))
+    def m_inner_hash(I, fr, fn, a):
+        p = models.D(I, a[0]); h = a[1]
+        while isinstance(h, Ref): h = I.deref(h)
+        if isinstance(p, Agg) and p.name == 'Projective':
+            aff = m_te_projective_to_affine(I, fr, fn, [p]); h.data.append(('inner-point', aff.fields[0], aff.fields[1]))
+        elif isinstance(p, Agg) and p.name == 'Affine': h.data.append(('inner-point', p.fields[0], p.fields[1]))
+        else: return NotImplemented
+        return models.UNIT
+    def m_bytes_hash(I, fr, fn, a):
+        b = I.deref(a[0]); h = a[1]
+        while isinstance(h, Ref): h = I.deref(h)
+        h.data.append(('bytes', list(b))); return models.UNIT
+    def m_hasher_write(I, fr, fn, a):
+        h = a[0]
+        while isinstance(h, Ref): h = I.deref(h)
+        h.data.append(('bytes', list(I.deref(a[1])))); return models.UNIT
+    def m_to_bytes_fe(I, fr, fn, a):
+        v = models.D(I, a[0])
+        if not isinstance(v, FE): return NotImplemented
+        return [LB(v, i) for i in range(32)]
+    def m_ser_fq(I, fr, fn, a):
+        v = models.D(I, a[0])
+        if not isinstance(v, FE): return NotImplemented
+        tgt = a[1]; arr = I.deref(tgt.base)
+        for i in range(32): arr[tgt.start + i] = LB(v, i)
+        return models.ok(models.UNIT)
+    def m_byte_and(I, fr, fn, a): return NotImplemented
+    PA = r'ark_ec::twisted_edwards::Affine<ark_curve::edwards::Decaf377EdwardsConfig>'
+    PP = r'ark_ec::twisted_edwards::Projective<ark_curve::edwards::Decaf377EdwardsConfig>'
+    return curve_models(build, extra=[
+        (rf'^<{PP} as core::cmp::PartialEq>::eq$', m_proj_eq), (rf'^<{PA} as core::cmp::PartialEq>::eq$', m_aff_eq),
+        (rf'^<{PP} as ark_ff::Zero>::is_zero$', m_proj_is_zero), (rf'^<{PA} as ark_ec::AffineRepr>::is_zero$', m_aff_is_zero),
+        (rf'^<{PP} as ark_ff::Zero>::zero$', lambda I, fr, fn, a: Agg('Projective', [FE.const('Fq', 0), FE.const('Fq', 1), FE.const('Fq', 0), FE.const('Fq', 1)])),
+        (rf'^<{PA} as ark_ec::AffineRepr>::xy$', lambda I, fr, fn, a: NotImplemented),
+        (rf'^<({PP}|{PA}) as core::hash::Hash>::hash::<.*>$', m_inner_hash),
+        (r'^<\[u8; 32\] as core::hash::Hash>::hash::<.*>$', m_bytes_hash),
+        (r' as core::hash::Hasher>::write$', m_hasher_write),
+        (r'^fields::fq::u(32|64)::wrapper::Fq::to_bytes_le$', m_to_bytes_fe),
+        (r'^<fields::fq::u64::wrapper::Fq as ark_serialize::CanonicalSerialize>::serialize_compressed::', m_ser_fq),
+        (r'^<fields::fq::u64::wrapper::Fq as ark_serialize::CanonicalSerialize>::serialized_size$', lambda I, fr, fn, a: 32),
+    ])
+
+def check_equality_coherence(build):
+    """== is the Decaf equality X1*Y2 == Y1*X2 (hence invariant under rescaling and the coset shift), hashing sees only the
+    encoding, and every identity predicate is `X == 0` - for Element and (arkworks build) AffinePoint."""
+    items = items_for(build); M = c08_models(build); obs = []
+    lam = FE.sym('Fq', 'lam')
+    E = 'ark_curve::element' if build == 'ark' else 'min_curve::element'
+    def el(tag, names=None, coords=None):
+        co = coords or tuple(FE.sym('Fq', tag + n) for n in 'XYZT'); return mk_element(build, *co), co
+    def aff(tag, coords=None):
+        co = coords or (FE.sym('Fq', tag + 'x'), FE.sym('Fq', tag + 'y')); return Agg(AFF_TY_, [Agg('Affine', list(co))]), co
+    def spec_eq(I, p, q): return models.fe_is_zero(I, p[0].mul(q[1]).sub(p[1].mul(q[0])))
+    def run(name, body, want_desc):
+        try: recs = run_paths(items, M, body)
+        except Exception as e:
+            obs.append(Ob(name, 'inconclusive', f'{type(e).__name__}: {e} :: ' + ' <- '.join(getattr(e, 'mir_stack', [])[:3]), 0, 'mirsym/POLY')); return
+        bad = 0
+        for r in recs:
+            if 'panic' in r: obs.append(Ob(name, 'violated', 'panics: ' + r['panic'], 0, 'mirsym/POLY', {'path': describe_path(r)}, {'kind': 'panic'})); bad += 1; continue
+            got, want = r['result']
+            if got != want:
+                bad += 1
+                obs.append(Ob(name + ' path ' + ''.join('1' if d else '0' for d in r['decisions']), 'violated', f'code answers {got}, {want_desc} is {want}', 0, 'mirsym path enumeration (POLY)', {'path': describe_path(r)}, {'kind': 'predicate'}))
+        if not bad: obs.append(Ob(name, 'proved', f'{len(recs)} paths: answer always equals {want_desc}', 0, 'mirsym path enumeration (POLY)', {'paths': len(recs)}))
+    # ---- equality
+    eqs = [it for k, it in items.items() if it.kind == 'fn' and k.endswith('::eq') and it.impl_at and it.impl_at[0] in ('src/ark_curve/element/projective.rs', 'src/ark_curve/element/affine.rs', 'src/min_curve/element.rs')]
+    for it in eqs:
+        is_aff = 'AffinePoint' in it.impl_header()
+        def body(I, h, it=it, is_aff=is_aff):
+            if is_aff:
+                p, pc = aff('p'); q, qc = aff('q')
+            else:
+                p, pc = el('p'); q, qc = el('q')
+            h.locals['p'] = p; h.locals['q'] = q
+            return I.call_item(it, [Ref(h, 'p', []), Ref(h, 'q', [])]), spec_eq(I, pc, qc)
+        run(f'{build}:`{it.impl_header()}`::eq is X1*Y2 == Y1*X2', body, 'the Decaf equality')
+        if not is_aff:
+            def body2(I, h, it=it):
+                I.ctx.nonzero = {'lam'}
+                p, pc = el('p'); q, _ = el('q', coords=tuple(lam.mul(c) for c in pc))
+                s_, _ = el('s', coords=(pc[0].neg(), pc[1].neg(), pc[2], pc[3]))
+                h.locals['p'] = p; h.locals['q'] = q; h.locals['s'] = s_
+                return (I.call_item(it, [Ref(h, 'p', []), Ref(h, 'q', [])]) and I.call_item(it, [Ref(h, 'p', []), Ref(h, 's', [])])), True
+            run(f'{build}:`{it.impl_header()}`::eq holds between P, its rescaling and its coset shift', body2, 'true')
+    if len(eqs) < (2 if build == 'ark' else 1): obs.append(Ob(f'{build}: PartialEq impls found', 'inconclusive', f'{len(eqs)}', 0, 'mirsym'))
+    # ---- identity predicates
+    preds = []
+    if build == 'ark':
+        preds += [(find_item(items, r'^ark_curve::element::projective::<impl at [^>]*>::is_identity$'), 'el'), (find_item(items, r'^ark_curve::element::projective::<impl at [^>]*>::is_zero$'), 'el'),
+                  (find_item(items, r'^ark_curve::element::<impl at [^>]*>::is_zero$'), 'aff')]
+    else: preds += [(find_item(items, r'^min_curve::element::<impl at [^>]*>::is_identity$'), 'el')]
+    for it, kind in preds:
+        def body(I, h, it=it, kind=kind):
+            if kind == 'el': p, pc = el('p')
+            else: p, pc = aff('p')
+            h.locals['p'] = p
+            return I.call_item(it, [Ref(h, 'p', [])]), models.fe_is_zero(I, pc[0])
+        run(f'{build}:{it.name.split("::")[-1]} ({it.impl_header()}) is `X == 0`', body, 'X == 0')
+    for it in eqs:
+        if 'AffinePoint' in it.impl_header(): continue
+        for cname, cpat in (('IDENTITY', rf'^{E}::(projective::)?<impl at [^>]*>::IDENTITY$'),) + ((('default()', r'^ark_curve::element::projective::<impl at [^>]*>::default$'),) if build == 'ark' else ()):
+            def body(I, h, it=it, cpat=cpat, cname=cname):
+                p, pc = el('p'); h.locals['p'] = p
+                cands = [v for k, v in items.items() if re.search(cpat, k)]
+                if cname == 'IDENTITY':
+                    c = [x for x in cands if x.kind == 'const' and 'Element' in (x.ret or '')]
+                    ident = I.eval_const_path(mirsym.Frame(mirsym.Item('fn', '<h>', '')), c[0].name)
+                else: ident = I.call_item(cands[0], [])
+                h.locals['i'] = ident
+                return I.call_item(it, [Ref(h, 'p', []), Ref(h, 'i', [])]), models.fe_is_zero(I, pc[0])
+            run(f'{build}:P == {cname} is `X == 0`', body, 'X == 0')
+    # ---- hashing (arkworks build): the hasher sees only bytes of the field encoding, the same for all representatives
+    if build == 'ark':
+        for it in [v for k, v in items.items() if k.endswith('::hash') and v.impl_at and v.impl_at[0] in ('src/ark_curve/element/projective.rs', 'src/ark_curve/element/affine.rs')]:
+            is_aff = 'AffinePoint' in it.impl_header()
+            def body(I, h, it=it, is_aff=is_aff):
+                outs = []
+                if is_aff:
+                    x, y = FE.sym('Fq', 'x'), FE.sym('Fq', 'y')
+                    reps = [(x, y), (x.neg(), y.neg())]
+                    vals = [Agg(AFF_TY_, [Agg('Affine', list(c))]) for c in reps]
+                else:
+                    I.ctx.nonzero = {'lam'}
+                    X, Y, Z, T = [FE.sym('Fq', n) for n in 'XYZT']
+                    reps = [tuple(lam.mul(c) for c in (X, Y, Z, T)), (X, Y, Z, T), (X.neg(), Y.neg(), Z, T)]
+                    vals = [mk_element('ark', *c) for c in reps]
+                for i, v in enumerate(vals):
+                    hs = HashRec(); h.locals[f'v{i}'] = v; h.locals[f'h{i}'] = hs
+                    I.call_item(it, [Ref(h, f'v{i}', []), Ref(h, f'h{i}', [])])
+                    outs.append(hs.data)
+                return outs
+            Mh = c08_models('ark')
+            if not is_aff: Mh['fns'] = [(r'::(non_arkworks_)?sqrt_ratio_zeta$', scaling_sqrt_model(lam))] + Mh['fns']
+            name = f'ark:`{it.impl_header()}`: the hasher sees the same data for every representative'
+            try: recs = run_paths(items, Mh, body)
+            except Exception as e:
+                obs.append(Ob(name, 'inconclusive', f'{type(e).__name__}: {e} :: ' + ' <- '.join(getattr(e, 'mir_stack', [])[:3]), 0, 'mirsym/POLY')); continue
+            for r in recs:
+                pn = name + ' path ' + ''.join('1' if d else '0' for d in r['decisions'])
+                if 'panic' in r: obs.append(Ob(pn, 'violated', 'panics: ' + r['panic'], 0, 'mirsym/POLY', None, {'kind': 'panic'})); continue
+                outs = r['result']; base = outs[0]; ok_ = True; why = ''
+                for o in outs[1:]:
+                    if len(o) != len(base): ok_ = False; why = 'different number of writes'; break
+                    for (k1, *d1), (k2, *d2) in zip(base, o):
+                        if k1 != k2: ok_ = False; why = 'different kind of data hashed'; break
+                        fl1 = hash_flat(d1); fl2 = hash_flat(d2)
+                        if len(fl1) != len(fl2): ok_ = False; why = 'different length'; break
+                        for u, v in zip(fl1, fl2):
+                            if isinstance(u, FE) and isinstance(v, FE):
+                                c = compare_fe(pn, u, v, {}, rec=r)
+                                if c.status != 'proved': ok_ = False; why = 'hashed values differ between representatives: ' + c.detail
+                            elif u != v: ok_ = False; why = f'{u!r} vs {v!r}'
+                            if not ok_: break
+                        if not ok_: break
+                    if not ok_: break
+                if ok_ and base and all(k == 'bytes' for k, *_ in base): obs.append(Ob(pn, 'proved', 'identical encoding bytes hashed for the rescaled, the plain and the coset-shifted representative', 0, 'mirsym/POLY + z3 identity'))
+                elif ok_: obs.append(Ob(pn, 'violated', 'the hasher is fed something else than encoding bytes', 0, 'mirsym/POLY', None, {'kind': 'hash'}))
+                else: obs.append(Ob(pn, 'violated', why, 0, 'mirsym/POLY + z3 identity', {'path': describe_path(r)}, {'kind': 'hash'}))
+    return obs
+
+AFF_TY_ = 'ark_curve::element::affine::AffinePoint'
+def hash_flat(d):
+    out = []
+    for x in d:
+        if isinstance(x, list):
+            for b in x:
+                if isinstance(b, LB): out += [b.fe, (b.i, b.mask if b.i != 31 else (b.mask | 0xE0))]
+                else: out.append(str(b))
+        else: out.append(x)
+    return out
